@@ -258,3 +258,72 @@ def intersectionsOfObjects (prog : Prog) : Bool :=
 
 end Spec
 end BeffVerif
+
+namespace BeffVerif
+namespace Spec
+
+/-- does some union (resp. intersection) of the program have a member that is a named reference? (D11 / D39:
+the emitted structure, hence hash256, then depends on the NAME resp. on whether the member is named at all) -/
+def stripParens : Ty → Ty
+  | .paren t => stripParens t
+  | .readonly t => stripParens t
+  | t => t
+
+def hasRefInUnion (prog : Prog) : Bool :=
+  anyInProg (fun t => match t with
+    | .union ts => ts.any (fun m => match stripParens m with | .ref _ _ => true | _ => false)
+    | _ => false) prog
+
+def hasRefInInter (prog : Prog) : Bool :=
+  anyInProg (fun t => match t with
+    | .inter ts => ts.any (fun m => match stripParens m with | .ref _ _ => true | _ => false)
+    | _ => false) prog
+
+def hasUnion (prog : Prog) : Bool :=
+  anyInProg (fun t => match t with | .union (_ :: _ :: _) => true | _ => false) prog
+
+mutual
+/-- names referenced by a type -/
+def refsOf : Ty → List String
+  | .array t => refsOf t
+  | .tuple pre rest => refsOfL pre ++ refsOfO rest
+  | .obj ms ix => refsOfM ms ++ refsOfI ix
+  | .union ts => refsOfL ts
+  | .inter ts => refsOfL ts
+  | .ref n args => n :: refsOfL args
+  | .bi _ args => refsOfL args
+  | .paren t => refsOf t
+  | .readonly t => refsOf t
+  | _ => []
+def refsOfL : List Ty → List String
+  | [] => []
+  | t :: ts => refsOf t ++ refsOfL ts
+def refsOfO : Option Ty → List String
+  | none => []
+  | some t => refsOf t
+def refsOfM : List (String × Bool × Ty) → List String
+  | [] => []
+  | (_, _, t) :: ms => refsOf t ++ refsOfM ms
+def refsOfI : Option (Ty × Ty) → List String
+  | none => []
+  | some (k, v) => refsOf k ++ refsOf v
+end
+
+/-- names referenced by a declaration -/
+def declRefs (d : Decl) : List String :=
+  match d with
+  | .alias _ _ b => refsOf b
+  | .iface _ _ ext ms => refsOfL ext ++ refsOfM ms
+
+/-- is some declaration reachable from itself (within four reference steps)? -/
+def hasRecursion (prog : Prog) : Bool :=
+  let step (reach : List (String × String)) : List (String × String) :=
+    reach ++ (reach.flatMap fun p => (prog.decls.filter (fun d => d.name == p.2)).flatMap fun d => (declRefs d).map fun r => (p.1, r))
+  let init := prog.decls.flatMap fun d => (declRefs d).map fun r => (d.name, r)
+  let closure := step (step (step (step init)))
+  closure.any fun p => p.1 == p.2
+
+def namingRewrites : List String := ["intro-alias", "inline-alias", "rename", "wrap-id", "iface-alias"]
+
+end Spec
+end BeffVerif
